@@ -107,6 +107,21 @@ pub trait BT: Value<Transformed: PartialEq> + Clone + Send + Sync + 'static {
             variants: vec![],
         }
     }
+    /// the bytes of the real transformed value at these offsets (the caller only asks for
+    /// discriminant bytes, which are always initialised)
+    fn peek(&self, offs: &[usize]) -> Vec<u8> {
+        let t = self.clone().transform();
+        let p = &t as *const Self::Transformed as *const u8;
+        let v = offs
+            .iter()
+            .map(|o| {
+                assert!(*o < std::mem::size_of::<Self::Transformed>());
+                unsafe { *p.add(*o) }
+            })
+            .collect();
+        drop(Self::untransform(t));
+        v
+    }
 }
 
 fn h(s: &str) -> u64 {
